@@ -1,0 +1,28 @@
+//go:build verif
+
+// Contracts for the exovc verifier (/verif). Comment-only: with the tag off this file is not part
+// of the package, with the tag on it declares nothing.
+package types
+
+// C18 (the genesis a chain exports is accepted by validation): the three queues (opt-outs to finish, consensus
+// addresses to prune, undelegations to mature) are indexed by epoch independently of each other - the same epoch may
+// appear once in each of them. The duplicate-epoch check of the undelegation queue therefore only ever sees epochs of
+// that queue: at every iteration, the set it looks an epoch up in holds nothing but epochs of earlier entries.
+//@ func (GenesisState).Validate
+//@   flag noframe
+//@   flag pure=Params).Validate,NewWrappedConsKeyFromHex,ConsAddressFromBech32,AccAddressFromBech32,Decode,ParseUndelegationRecordKey,Wrapf,Wrap,IsNil,IsPositive
+//@ loop #1
+//@   invariant true
+//@ loop #2
+//@   invariant true
+//@ loop #3
+//@   invariant true
+//@ loop #4
+//@   invariant true
+//@ loop #5
+//@   invariant true
+//@ loop #6
+//@   invariant[C18.gv.ownepochs] -1 <= rangeindex && rangeindex < len(gs.UndelegationMaturities) &&
+//@        forall(e, has(epochs, e) ==> exists(j, 0, rangeindex + 1, gs.UndelegationMaturities[j].Epoch == e))
+//@ loop #7
+//@   invariant true
